@@ -17,3 +17,4 @@ open PK
 #print axioms orderProbability_sum
 #print axioms C18_icm_nonneg
 #print axioms C18_icm_sum
+#print axioms PK.C18_icm_sum_take
